@@ -27,15 +27,15 @@ def opOfJson (j : Json) : Option Op :=
     | [.str "rejectUnless", .str k] => some (.rejectUnless k)
     | [.str "rejectIf", .str k, v] => some (.rejectIf k (toV v))
     | [.str "loop"] => some .loop
-    | [.str "emitBad"] => some .emitBad
-    | [.str "emitBad", _] => some .emitBad
+    | [.str "emitBad"] => some (.emitBad ":type")
+    | [.str "emitBad", .str k] => some (.emitBad (":" ++ k))
     | _ => none
   | _ => none
 
 def progOfJson (j : Json) : Prog :=
   { ops := (getArr j "ops").filterMap opOfJson
     ret := match getStr j "ret" with
-      | "null" => .null | "scalar" => .scalar | "array" => .array | "fresh" => .fresh | "nan" => .nan | _ => .bs
+      | "null" => .null | "scalar" => .scalar | "array" => .array | "fresh" => .fresh | "nan" => .bad ":nan" | "cyclic" => .bad ":cycle" | _ => .bs
     native := getStr j "lang" == "native"
     partialOnFail := getBool j "partial" }
 
